@@ -44,7 +44,7 @@ ASSUMPTIONS = [
 ]
 
 SLOTS = W.TARGET_ORDER + ["pipeline", "grounder", "pipeline", "tcrm"]  # the name-creating grounder (F13 anchor) / tcrm get a double share
-N = {"quick": 1400, "thorough": 16000}
+N = {"quick": 1400, "thorough": 48000}
 # the compilers outside the ten classical ones have their own key range (indices >= EXTRA_BASE), so that the cases of the
 # classical compilers do not depend on how many extra compilers are observed
 EXTRA_BASE = 1000000
